@@ -96,7 +96,14 @@ def api_single(ctx, specs, ads, opts, read):
     rev_t, rev_m = cutter.match_and_trim(rev_in[:])
     fs, rs = sum(m.score for m in fwd_m), sum(m.score for m in rev_m)
     use = bool(rev_m) and rs > fs
-    info = ModificationInfo(rec)
+    # the stage may receive a read that earlier stages have already shortened: the record as read from the input
+    # (kept in the ModificationInfo) is then longer than the read the stage works on
+    if len(read) % 2 == 0:
+        orig = SequenceRecord("r1 c", "GT" + read + "C", "II" + q + "I")
+        info = ModificationInfo(orig)
+        ctx.count("stage_input_shorter_than_original_read")
+    else:
+        info = ModificationInfo(rec)
     wa0, rc0 = cutter.with_adapters, rcm.reverse_complemented
     stats0 = {a: (st.reverse_complemented,) for a, st in cutter.adapter_statistics.items()}
     try:
@@ -220,6 +227,19 @@ def cli_case(ctx, k):
     os.makedirs(d, exist_ok=True)
     try:
         inputs = climon.write_inputs(d, recs1, recs2 if paired else None)
+        orig_inputs, pre = list(inputs), []
+        if not paired and rng.random() < 0.35:
+            # stages before adapter trimming: the --revcomp stage works on what they leave. One run with everything must
+            # equal the --revcomp run on the output of a run that only does the earlier stages.
+            pre = rng.choice([["-u", "3"], ["-u", "-4"], ["-q", "20"], ["-u", "2", "-u", "-2"], ["-q", "15,10"]])
+            rp = climon.run(d, pre + ["-o", "pre1.fq"] + inputs, tag="pre", trace=False)
+            fo = rp.records("pre1.fq") if rp.rc == 0 else None
+            if not fo or fo[0] == "error":
+                pre = []
+            else:
+                recs1 = [tuple(x) for x in fo[1]]
+                inputs = ["pre1.fq"]
+                ctx.count("cli_runs_with_earlier_stages")
         if paired:
             rc_inputs = [inputs[1], inputs[0]]
         else:
@@ -305,6 +325,13 @@ def cli_case(ctx, k):
                                   f"run wrote {ref[1]!r}; scores fwd {sf} ({nf} m) rc {sc} ({nc} m); argv={argv_r}", case, klass=str(use))
                 elif rr[0] != exp_name:
                     ctx.violation("cli-name", f"read {key}: name {rr[0]!r}, expected {exp_name!r}; argv={argv_r}", case)
+        if pre:
+            run_k = climon.run(d, pre + base + ["--revcomp"] + ren + ["-o", "k1.fq"] + orig_inputs, tag="comb", trace=False)
+            K = run_k.records("k1.fq") if run_k.rc == 0 else None
+            if K is None or K[0] == "error" or K[1] != R_[1][1]:
+                j = None if not K or K[0] == "error" else next((i for i, (a, b) in enumerate(zip(K[1], R_[1][1])) if a != b), None)
+                ctx.violation("cli-stage-input", f"{pre} together with --revcomp in one run differs from --revcomp on the output of {pre} alone "
+                              f"(exit {run_k.rc}); first differing record: {None if j is None else (K[1][j], R_[1][1][j])}; argv={pre + argv_r}", case, klass="pre")
         if side_files:
             # later outputs use the chosen orientation as well: the info and rest files of the --revcomp run must show, read by read,
             # what the run on the selected orientation shows (apart from the name suffix and the reverse-complement flag column)
